@@ -38,8 +38,9 @@ type Validator struct {
 type validationContext struct {
 	function       *Function
 	functionName   string
-	loopDepth      int
-	inContinuing   bool
+	canBreak       bool // inside a loop body or a switch clause (no continuing block in between)
+	canContinue    bool // inside a loop body (no continuing block in between)
+	inContinuing   bool // inside a continuing block, at any depth
 	expressionUsed map[ExpressionHandle]bool
 }
 
@@ -181,7 +182,6 @@ func (v *Validator) validateConstants() {
 
 // validateGlobalVariables checks all global variables.
 func (v *Validator) validateGlobalVariables() {
-	bindings := make(map[string]bool) // Track binding uniqueness (group:binding)
 	names := make(map[string]bool)
 
 	for i, gv := range v.module.GlobalVariables {
@@ -194,15 +194,6 @@ func (v *Validator) validateGlobalVariables() {
 
 		if !v.isValidTypeHandle(gv.Type) {
 			v.addError(fmt.Sprintf("global variable %d (%s): type %d does not exist", i, gv.Name, gv.Type))
-		}
-
-		if gv.Binding != nil {
-			key := fmt.Sprintf("%d:%d", gv.Binding.Group, gv.Binding.Binding)
-			if bindings[key] {
-				v.addError(fmt.Sprintf("global variable %q: duplicate binding @group(%d) @binding(%d)",
-					gv.Name, gv.Binding.Group, gv.Binding.Binding))
-			}
-			bindings[key] = true
 		}
 
 		if gv.Init != nil {
@@ -229,7 +220,8 @@ func (v *Validator) validateFunctions() {
 		v.context = validationContext{
 			function:       fn,
 			functionName:   fn.Name,
-			loopDepth:      0,
+			canBreak:       false,
+			canContinue:    false,
 			inContinuing:   false,
 			expressionUsed: make(map[ExpressionHandle]bool),
 		}
@@ -534,6 +526,8 @@ func (v *Validator) validateStatement(index int, stmt *Statement) {
 			v.addErrorInStatement(index, fmt.Sprintf("selector expression %d does not exist", kind.Selector))
 		}
 		hasDefault := false
+		oldBreak := v.context.canBreak
+		v.context.canBreak = true // a switch clause is a break target
 		for _, c := range kind.Cases {
 			if _, ok := c.Value.(SwitchValueDefault); ok {
 				if hasDefault {
@@ -543,20 +537,22 @@ func (v *Validator) validateStatement(index int, stmt *Statement) {
 			}
 			v.validateBlock(c.Body)
 		}
+		v.context.canBreak = oldBreak
 		if !hasDefault {
 			v.addErrorInStatement(index, "switch missing default case")
 		}
 
 	case StmtLoop:
-		oldDepth := v.context.loopDepth
-		v.context.loopDepth++
+		oldBreak, oldContinue, oldContinuing := v.context.canBreak, v.context.canContinue, v.context.inContinuing
+		v.context.canBreak, v.context.canContinue = true, true
 
 		v.validateBlock(kind.Body)
 
-		oldContinuing := v.context.inContinuing
-		v.context.inContinuing = true
+		// The continuing block offers no break/continue target of its own
+		// (the loop is left from there only through BreakIf).
+		v.context.canBreak, v.context.canContinue, v.context.inContinuing = false, false, true
 		v.validateBlock(kind.Continuing)
-		v.context.inContinuing = oldContinuing
+		v.context.canBreak, v.context.canContinue, v.context.inContinuing = oldBreak, oldContinue, oldContinuing
 
 		if kind.BreakIf != nil {
 			if !v.isValidExpressionHandle(*kind.BreakIf) {
@@ -564,22 +560,22 @@ func (v *Validator) validateStatement(index int, stmt *Statement) {
 			}
 		}
 
-		v.context.loopDepth = oldDepth
-
 	case StmtBreak:
-		if v.context.loopDepth == 0 {
-			v.addErrorInStatement(index, "break outside of loop")
-		}
-		if v.context.inContinuing {
-			v.addErrorInStatement(index, "break in continuing block")
+		if !v.context.canBreak {
+			if v.context.inContinuing {
+				v.addErrorInStatement(index, "break in continuing block")
+			} else {
+				v.addErrorInStatement(index, "break outside of loop or switch")
+			}
 		}
 
 	case StmtContinue:
-		if v.context.loopDepth == 0 {
-			v.addErrorInStatement(index, "continue outside of loop")
-		}
-		if v.context.inContinuing {
-			v.addErrorInStatement(index, "continue in continuing block")
+		if !v.context.canContinue {
+			if v.context.inContinuing {
+				v.addErrorInStatement(index, "continue in continuing block")
+			} else {
+				v.addErrorInStatement(index, "continue outside of loop")
+			}
 		}
 
 	case StmtReturn:
@@ -677,6 +673,22 @@ func (v *Validator) validateEntryPoints() {
 		// Entry point function is stored inline (not via handle).
 		fn := &v.module.EntryPoints[i].Function
 
+		// Binding uniqueness is a property of one entry point's resource interface:
+		// the variables statically used by the entry point, through calls.
+		bindings := make(map[string]string)
+		for _, h := range v.globalsUsedBy(fn) {
+			gv := &v.module.GlobalVariables[h]
+			if gv.Binding == nil {
+				continue
+			}
+			key := fmt.Sprintf("%d:%d", gv.Binding.Group, gv.Binding.Binding)
+			if other, dup := bindings[key]; dup {
+				v.addError(fmt.Sprintf("entry point %q: global variables %q and %q share binding @group(%d) @binding(%d)",
+					ep.Name, other, gv.Name, gv.Binding.Group, gv.Binding.Binding))
+			}
+			bindings[key] = gv.Name
+		}
+
 		// Validate stage-specific requirements
 		switch ep.Stage {
 		case StageVertex:
@@ -701,6 +713,52 @@ func (v *Validator) validateEntryPoints() {
 			}
 		}
 	}
+}
+
+// globalsUsedBy returns the handles of the global variables statically used by fn,
+// directly or through the functions it calls (each handle once, in first-use order).
+func (v *Validator) globalsUsedBy(fn *Function) []GlobalVariableHandle {
+	var used []GlobalVariableHandle
+	seenGlobal := make(map[GlobalVariableHandle]bool)
+	seenFunc := make(map[FunctionHandle]bool)
+	var visitBlock func(b Block)
+	var visitFunc func(f *Function)
+	visitBlock = func(b Block) {
+		for i := range b {
+			switch k := b[i].Kind.(type) {
+			case StmtBlock:
+				visitBlock(k.Block)
+			case StmtIf:
+				visitBlock(k.Accept)
+				visitBlock(k.Reject)
+			case StmtSwitch:
+				for _, c := range k.Cases {
+					visitBlock(c.Body)
+				}
+			case StmtLoop:
+				visitBlock(k.Body)
+				visitBlock(k.Continuing)
+			case StmtCall:
+				if int(k.Function) < len(v.module.Functions) && !seenFunc[k.Function] {
+					seenFunc[k.Function] = true
+					visitFunc(&v.module.Functions[k.Function])
+				}
+			}
+		}
+	}
+	visitFunc = func(f *Function) {
+		for i := range f.Expressions {
+			if g, ok := f.Expressions[i].Kind.(ExprGlobalVariable); ok {
+				if int(g.Variable) < len(v.module.GlobalVariables) && !seenGlobal[g.Variable] {
+					seenGlobal[g.Variable] = true
+					used = append(used, g.Variable)
+				}
+			}
+		}
+		visitBlock(f.Body)
+	}
+	visitFunc(fn)
+	return used
 }
 
 // hasPositionBuiltin checks if the function result contains @builtin(position).
